@@ -202,5 +202,14 @@ PROPS["C05"] = {
     "note": "no contract within reach states 'every importer still works' (import rewriting in move.py spans occurrence finding, import tools and text edits).",
     "undecided": ["all import-rewriting paths of move.py", "behaviour for all projects"],
 }
+PROPS["C17"] = {
+    "sidecars": ["c17_assign.py", "c14_worder.py"],
+    "level": "exploration",
+    "claim": "Mostly bounded and behavioural (29 projects executed before and after the refactoring).  Deductive kernel: the read/write classification "
+             "encapsulate-field relies on -- get_assignment_type reports only operators ending in '=' of 1-3 characters and never a comparison (==, <=, >=, !=) -- for "
+             "every text, together with the word scanners it uses (C14 contracts).",
+    "note": "four of the five refactorings have no function-level contract within reach (they are compositions of occurrence finding, matching and text edits).",
+    "undecided": ["behaviour preservation for all classes and all client modules"],
+}
 _NB = "check not built yet (framework under construction; see DESIGN.md section 8)"
 NOT_APPLICABLE = {"C%02d" % i: _NB for i in range(1, 21)}
